@@ -499,7 +499,7 @@ func c17Types() []c17Type {
 			// one statsd client per process here: a client costs milliseconds to create and close
 			mkReg = func() any {
 				if sharedDD == nil {
-					client, err := dogstatsd.NewWithWriter(&memWriter{}, dogstatsd.WithoutTelemetry(), dogstatsd.WithoutClientSideAggregation())
+					client, err := dogstatsd.NewWithWriter(nullWriter{}, dogstatsd.WithoutTelemetry(), dogstatsd.WithoutClientSideAggregation())
 					if err != nil {
 						panic(err)
 					}
